@@ -445,10 +445,15 @@ def finish(mod, tier, seed, st, t0):
     )
     for e, v in known_hits.values():
         print("KNOWN-FINDING: property=%s %s" % (prop, e["title"]))
-    if herr:
+    if herr and not confirmed:
         for h in herr[:3]:
             print("HARNESS-ERROR:\n" + h)
         return 2
+    if herr:
+        # reproduced violations are the verdict; what broke in the harness besides (often the same change: a schedule
+        # that no longer replays, a seam that no longer fits) is shown, and the coverage is not called exhaustive
+        for h in herr[:2]:
+            print("note: a part of the harness failed on this tree (coverage incomplete): " + h.strip().splitlines()[-1][:300])
     # a candidate that does not reproduce although another candidate with the same footprint does (the same
     # failure seen once in a polluted long-lived worker, once on its own) is not reported separately
     _base = lambda sg: sg.split(":only after")[0]  # noqa: E731
